@@ -77,6 +77,8 @@ class Ctx:
         t0 = time.time()
         self.queries += 1
         self.last_solver = self.solver
+        if self.stop_file and (self.queries & 7) == 0 and os.path.exists(self.stop_file):
+            raise UnwindLimit("stopped: another case of this run already produced a reproduced violation")
         if self.env.get("fp"):
             # floating-point terms on this path: the incremental core stalls on them (measured: unknown after 60 s
             # where fpa2bv + bit-blasting answers in 0.2 s), so such paths go straight to that pipeline
@@ -215,6 +217,21 @@ class Ctx:
             mm = self.last_solver.model() if ro == "sat" else None
             self.add(cond)
             self.model = mm
+        return True
+
+    def free_choice(self, cond):
+        """a branch on a scheduling variable that occurs in no other constraint: both sides are feasible whenever the
+        path is, so no solver call is needed (the constraint is still recorded, for the witness)"""
+        i = len(self.trail)
+        if i >= self.max_decisions:
+            raise UnwindLimit("more than %d branch decisions on one path" % self.max_decisions)
+        if i < len(self.plan):
+            b, done = self.plan[i]
+            self.trail.append([b, done])
+            self.add(cond if b else z3.Not(cond))
+            return b
+        self.trail.append([True, False])
+        self.add(cond)
         return True
 
     def _model(self):
